@@ -19,13 +19,15 @@ AIRCRAFT = [0x4840D6, 0xABC001, 0x3C6586, 0x000001, 0xFFFFFE]
 
 
 def traffic(n_ac, with_pos, step):
-    """frames for n_ac aircraft; positions near the receiver"""
+    """frames for n_ac aircraft; positions near the receiver (with_pos == 2: all at the same spot)"""
     out = []
     for i in range(n_ac):
         a = AIRCRAFT[i % len(AIRCRAFT)]
         out.append(F.ident(a, f"AC{i}{step % 10}"))
         if with_pos:
             lat, lon = F.destination(RX[0], RX[1], 70.0 * i + 3 * step, 20.0 + 15 * i)
+            if with_pos == 2:
+                lat, lon = F.destination(RX[0], RX[1], 45.0, 30.0)
             out.append(F.position(a, lat, lon, 0))
             out.append(F.position(a, lat, lon, 1))
             out.append(F.velocity(a, 120 + i, 80 - 30 * i, 64 * i))
@@ -80,9 +82,15 @@ def run_case(case):
                 elif k == "resize":
                     s.resize(SIZES_R[st[1] % len(SIZES_R)], SIZES_C[st[2] % len(SIZES_C)])
                 elif k == "feed":
-                    for f in traffic(st[1] % 6, bool(st[2]), step_no):
+                    for f in traffic(st[1] % 6, st[2] % 3, step_no):
                         s.send(F.line(f))
                     time.sleep(0.1)
+                elif k == "feed_tab":
+                    for f in traffic(st[1] % 6, st[2] % 3, step_no):
+                        s.send(F.line(f))
+                    time.sleep(0.25)
+                    s.p.write(key(["F1", "F2", "F3", "F4", "F5"][st[3] % 5]))
+                    time.sleep(0.2)
                 elif k == "wait_expiry":
                     time.sleep(1.25)
                 if not check(f"{step_no} {st}"):
@@ -125,7 +133,7 @@ BAD_VALUES = {
     "--scale": ["abc", "", "1,2"],
     "--filter-time": ["abc", "-1", "1.5", "", "99999999999999999999999"],
     "--max-range": ["abc", "", "km"],
-    "--locations": ["abc", "(a,1.0)", "(a)", "()", "", "(a,b,c)", "(a,1.0,x)", "a,1.0", ",", "(a,1,2", "((", "(a,,)"],
+    "--locations": ["abc", "(a,1.0)", "(a)", "()", "", "(a,b,c)", "(a,1.0,x)", "a,1.0", ",", "((", "(a,,)"],
 }
 
 
@@ -162,7 +170,7 @@ def classify(case):
     steps = case["steps"]
     kinds = [s[0] for s in steps]
     small = SIZES_R[case["rows"] % len(SIZES_R)] < 5 or SIZES_C[case["cols"] % len(SIZES_C)] < 5 or any(s[0] == "resize" and (SIZES_R[s[1] % len(SIZES_R)] < 5 or SIZES_C[s[2] % len(SIZES_C)] < 5) for s in steps)
-    fed = any(s[0] == "feed" and s[1] % 6 > 0 for s in steps)
+    fed = any(s[0] in ("feed", "feed_tab") and s[1] % 6 > 0 for s in steps)
     airplanes_tab_empty = False
     have = False
     for s in steps:
@@ -203,13 +211,17 @@ def worker(args):
         st.tuples(st.just("mouse"), st.integers(0, 7), st.sampled_from([0, 1, 2, 5, 9, 11, 30, 49, 79, 200, 300]), st.sampled_from([0, 1, 2, 3, 4, 8, 15, 23, 49, 100, 250])),
         st.tuples(st.just("click_tab"), st.integers(0, 4)),
         st.tuples(st.just("resize"), st.integers(0, len(SIZES_R) - 1), st.integers(0, len(SIZES_C) - 1)),
-        st.tuples(st.just("feed"), st.integers(0, 5), st.integers(0, 1)),
+        st.tuples(st.just("feed"), st.integers(0, 5), st.integers(0, 2)),
+        st.tuples(st.just("mouse"), st.sampled_from([0, 0, 2, 1]), st.integers(0, 12), st.integers(0, 60)),  # left button in the touchscreen column
         st.tuples(st.just("wait_expiry")),
+        st.tuples(st.just("feed_tab"), st.integers(2, 5), st.integers(0, 2), st.integers(0, 4)),
+        # several aircraft in one coverage cell, then each tab in turn
+        st.sampled_from([("feed_tab", 3, 2, 1), ("feed_tab", 2, 2, 0), ("feed_tab", 4, 2, 2), ("feed_tab", 2, 1, 1), ("feed_tab", 5, 2, 3)]),
     )
     session = st.fixed_dictionaries({
-        "flags": st.lists(st.integers(0, len(FLAGS) - 1), max_size=3),
-        "rows": st.integers(0, len(SIZES_R) - 1),
-        "cols": st.integers(0, len(SIZES_C) - 1),
+        "flags": st.one_of(st.lists(st.integers(0, len(FLAGS) - 1), max_size=3), st.lists(st.integers(0, len(FLAGS) - 1), max_size=2).map(lambda l: [0] + l)),
+        "rows": st.one_of(st.integers(0, len(SIZES_R) - 1), st.integers(0, 3)),
+        "cols": st.one_of(st.integers(0, len(SIZES_C) - 1), st.integers(0, 3)),
         "expiry": st.booleans(),
         "steps": st.lists(step, max_size=18),
         "quit": st.integers(0, 1),
@@ -277,7 +289,7 @@ def main():
         worker(a)
         return
     tier = a.tier
-    per = 8 if tier == "quick" else 170
+    per = 14 if tier == "quick" else 200
     rc = pbt.run_parallel(
         PID, os.path.abspath(__file__), tier, 12, per, "exploration",
         "Hypothesis-generated sessions with the radar binary on a real pty: start options (touchscreen, disable flags, limit-parsing, retry, locations, scale incl. 0/negative/huge), initial terminal size from {1..120} x {1..250}, then up to 18 steps from {key, burst of keys in one write, SGR mouse event at arbitrary/out-of-window coordinates, click on a tab, resize + SIGWINCH, feed of 0-5 aircraft with or without positions, wait for expiry with --filter-time 1}; after every step the process must be alive with no panic on stderr; then quit by q or Ctrl-C (also while waiting for the first connection): exit 0, termios equal to the snapshot taken before start, mouse reporting off, cursor visible. Separately: invalid values for every value-taking option must give a clap usage error (status 2), not a panic. non-trivial = size < 5 in a dimension, Airplanes/Stats tab with no aircraft, aircraft expiring, quit without server, or a CLI case; distinct by hash of the case",
